@@ -548,6 +548,16 @@ class ACCLoopDirective(ACCRegionDirective):
                 f"in the Schedule or the routine must contain an "
                 f"ACCRoutineDirective.")
 
+        # The directive must be followed by the loop to which it applies.
+        # pylint: disable=import-outside-toplevel
+        from psyclone.psyir.nodes.loop import Loop
+        if (len(self.dir_body.children) != 1 or
+                not isinstance(self.dir_body[0], Loop)):
+            raise GenerationError(
+                f"An ACCLoopDirective can only be applied to a single loop "
+                f"but this Node has the following children: "
+                f"{[type(child).__name__ for child in self.dir_body]}")
+
         super().validate_global_constraints()
 
     def gen_code(self, parent):
